@@ -266,6 +266,31 @@ class CertFam(Family):
                     self._sigset(L, scheme, nm + "s", pairs)
                     L.append(f"agg {nm} sig={nm}s view={view} qcs=" + (",".join(f"{i}:{qcs[i]}" for i in qcs) or "-"))
                 L.append(f"verify-agg {R()} {nm}")
+                if kind == "honest" and scheme != "bls12" and twin is None and rng.random() < 0.5:
+                    # one signer's attested QC is replaced by a variant with the SAME signature bytes cut at
+                    # another place (or attributed to other signers): not what that signer signed
+                    cands = [i for i in qcs if qcs[i].startswith("Q") and qcs[i][1:].isdigit()
+                             and any(l.startswith(f"create-qc ") and f" {qcs[i]} " in l for l in L)]
+                    if cands:
+                        i = rng.choice(cands)
+                        hq = qcs[i]
+                        k_ = hq[1:]
+                        vw = next((vv for bb, vv in views if bb == f"B{k_}"), None)
+                        vq = fresh("vq")
+                        a_, b_ = sorted(rng.sample(range(1, n + 1), 2)) if n >= 2 else (1, 1)
+                        if rng.random() < 0.5:
+                            L.append(f"multi {vq}s {a_}:cutA10@{hq}.sig {b_}:cutB10@{hq}.sig")
+                        else:
+                            # same parts, signers relabelled (rotated)
+                            src = next(l for l in L if l.startswith("create-qc ") and f" {hq} " in l).split()[4:]
+                            ids_ = [int(x.split("_")[1]) for x in src]
+                            L.append(f"multi {vq}s " + " ".join(f"{ids_[(j + 1) % len(ids_)]}:{x}" for j, x in enumerate(src)))
+                        if vw is not None:
+                            L.append(f"qc {vq} sig={vq}s view={vw} hash=B{k_}")
+                            q2 = dict(qcs)
+                            q2[i] = vq
+                            L.append(f"agg {nm}v sig={nm}s view={view} qcs=" + ",".join(f"{j}:{q2[j]}" for j in q2))
+                            L.append(f"verify-agg {R()} {nm}v")
                 if forged is not None:
                     hq, k_ = forged
                     fq = fresh("fq")
